@@ -56,7 +56,10 @@ class UDPListener:
 
         available = MAX_MESSAGE_LEN - len(self._getMessage(2**16-1))
         if available < 0:
-            desc_length = len(self.description.encode('utf-8'))
+            description, self.description = self.description, ''
+            # the length of the description within the message (after json escaping)
+            desc_length = MAX_MESSAGE_LEN - available - len(self._getMessage(2**16-1))
+            self.description = description
             if available + desc_length < 0:
                 self.log.warn('Equipment id and firmware name exceed 430 byte '
                               'limit, not answering to udp discovery')
